@@ -107,9 +107,9 @@ MORE['C14'] = dict(
     text=("Proof, partial. lean/Dc4bcVerif/Props/C14.lean: interleaving_eq_serial / interleaving_eq_serial' (any state type, any step functions: pairwise commuting steps => EVERY interleaving, with any number of pre-emptions, ends in the state of "
           "either serial order), put_del_commute, no_lost_no_resurrected, pool_interleaving_serial (creating operations and retiring other operations, as atomic steps: nothing created is lost, nothing retired comes back), repo_rmw_locked (kernel-evaluated over "
           "the generated lock facts: PutOperation, DeleteOperation, GetOperations hold the repository mutex for their whole body and do not re-enter it), unlocked_rmw_loses_put (the pinned tree's sequences lose a new operation with one pre-emption), "
-          "reset_during_tick_skips_log (KNOWN-FINDING C14-reset-during-poll: a reset inside a poll tick leaves the new database at an advanced offset). Not proved: the Go memory model / that a mutex-protected sequence is an atomic step; the round-state blob "
-          "under an API request that finishes a re-initialisation concurrently with polling (not explored). Tie: scheddiff runs the two activities as goroutines over the same real services and enumerates schedules with up to 3 pre-emptions at the granularity of "
-          "state-store reads/writes and board sends; the final state must equal one of the two serial orders."),
+          "reset_during_tick_skips_log (KNOWN-FINDING C14-reset-during-poll: a reset inside a poll tick leaves the new database at an advanced offset). Props/C14Rounds.lean, the stored rounds (one value for all rounds, SaveFSM = read-modify-write): rounds_rmw_locked (kernel-evaluated over Gen/RoundLock.lean: every method of the node service that writes a round does so under roundsMu - fix 02d4900), "
+          "locked_saves_commute, unlocked_save_loses_round (explicit interleaving in which saving one round undoes the save of another). Not proved: the Go memory model / that a mutex-protected sequence is an atomic step. Tie: scheddiff runs the two activities as goroutines over the same real services and enumerates schedules with up to 3 pre-emptions at the granularity of "
+          "state-store reads/writes and board sends (five request/message pairs, among them finishing a re-initialisation against a message of another round and of the same round); the final state must equal one of the two serial orders."),
     ref='7 C14', note=NODE_NOTE)
 
 AIR_NOTE = ("Trusted: Lean kernel + the three standard axioms; the airdiff correspondence (real machines stopped / reopened / replayed at every restart point; bookkeeping of the durable log predicted by the compiled Lean model); verif hooks "
